@@ -372,14 +372,16 @@ def appStep (hdrLen bodyLen : Nat) (s : AppSt) : Eff → AppSt
 def appRun (hdrLen bodyLen : Nat) (effs : List Eff) : AppSt :=
   effs.foldl (appStep hdrLen bodyLen) ⟨0, 0, false, false⟩
 
-/-- decidable obligation on an effect order: the index row is set only when everything written has
-been synced, and nothing is written after it -/
-def appSafe : Bool → Bool → List Eff → Bool
+/-- decidable obligation on an effect order (phase `p`: 0 nothing written, 1 header written, 2 header
+and body written, 3 row set; `d`: something written is not yet synced): the header is written once,
+then the body once, the index row is set only after both and only when everything written has been
+synced, and nothing is written after it -/
+def appSafe : Nat → Bool → List Eff → Bool
   | _, _, [] => true
-  | _, r, .writeHeader :: t => !r && appSafe true r t
-  | _, r, .copy :: t => !r && appSafe true r t
-  | _, r, .sync :: t => appSafe false r t
-  | d, _, .indexSet :: t => !d && appSafe d true t
-  | d, r, _ :: t => appSafe d r t
+  | p, _, .writeHeader :: t => p == 0 && appSafe 1 true t
+  | p, _, .copy :: t => p == 1 && appSafe 2 true t
+  | p, _, .sync :: t => appSafe p false t
+  | p, d, .indexSet :: t => p == 2 && !d && appSafe 3 d t
+  | p, d, _ :: t => appSafe p d t
 
 end Pk.Pack
